@@ -131,15 +131,15 @@ def mon_c03(sc, prof, pairs):
 
 
 def mon_c08(sc, prof, pairs):
-    """struct destructor runs: same multiset per step as Vec<T>"""
+    """struct destructor runs (`T<id>`; `N`: a nested struct's own destructor): same multiset per step as Vec<T>"""
     out = []
     for i, s in pairs:
         # (a pointer write reports the events of the write itself inside its result: `written:<old>:wev=[...]`)
         def wev(o):
             m = re.search(r"wev=(\[[^\]]*\])", o.get("ret", "") or "")
             return parse_ev(m.group(1)) if m else []
-        ti = sorted(e for e in parse_ev(i.get("ev", "[]")) + parse_ev(i.get("rev", "[]")) + wev(i) if e.startswith("T"))
-        ts = sorted(e for e in parse_ev(s.get("ev", "[]")) + parse_ev(s.get("rev", "[]")) + wev(s) if e.startswith("T"))
+        ti = sorted(e for e in parse_ev(i.get("ev", "[]")) + parse_ev(i.get("rev", "[]")) + wev(i) if e.startswith("T") or e == "N")
+        ts = sorted(e for e in parse_ev(s.get("ev", "[]")) + parse_ev(s.get("rev", "[]")) + wev(s) if e.startswith("T") or e == "N")
         if ti != ts:
             op = op_of(sc, i["step"])
             out.append(Failure(sc, prof, i["step"], f"struct destructor runs: soa={ti} std={ts}", f"C08:{op}:dropT", {"I": i["raw"], "S": s["raw"]}))
